@@ -16,5 +16,11 @@ theorem tie_intervals :
     Facts.Keys.appEUIdispatcherInterval = some 10 ∧ Facts.Keys.deviceEUIdispatcherInterval = some 100 ∧
     Facts.Keys.outputEUIdispatcherInterval = some 10 := by decide
 
+/-- The allocator model's `reserve` event is one atomic step: in the code the counter is read and
+    advanced under the storage mutex held for the whole body, the read going through the same
+    transaction as the write. -/
+theorem tie_reservation_atomic :
+    Facts.Keys.allocateKeysLocked = true ∧ Facts.Keys.allocateKeysReadsInTx = true := by decide
+
 end Tie.Keys
 end LospanVerif
